@@ -115,6 +115,10 @@ func VerifWorkloadLocks(arg string) {
 	k := vParam(arg, "ids", 3)
 	c, st := vCluster(1, 1)
 	universe := []string{"w1", "w2", "w3"}
+	if vParam(arg, "long", 0) == 1 {
+		// realistic 64-character ids; two of them end in the same characters (lock keys must not be derived from a suffix)
+		universe = []string{"1111111111111111111111111111111111111111111111111111111abcdef0", "2222222222222222222222222222222222222222222222222222222abcdef0", "3333333333333333333333333333333333333333333333333333333fedcba9"}
+	}
 	for _, id := range universe {
 		st.workloads[id] = &types.Workload{ID: id}
 	}
@@ -136,6 +140,20 @@ func VerifWorkloadLocks(arg string) {
 			vAssert("C20/locks-ascending-without-repeats", last < key)
 			last = key
 		}
+	}
+	// one lock per distinct workload named in the request
+	distinct := map[string]bool{}
+	for _, id := range ids {
+		distinct[id] = true
+	}
+	if err == nil {
+		locked := 0
+		for _, ev := range st.trace {
+			if ev[0] == 'L' {
+				locked++
+			}
+		}
+		vAssert("C20/one-lock-per-distinct-workload", locked == len(distinct))
 	}
 	vAssert("C20/everything-released", len(st.held) == 0)
 	_ = cluster.WorkloadLock
